@@ -224,6 +224,11 @@ def getitem(eng, st, obj, idx):
         raise Unsupported("tuple slicing")
     if isinstance(obj, VObj) and obj.kind == "pylist" and isinstance(idx, VInt):
         return [("ok", st, st.objs[obj.oid]["items"][_conc_index(idx.t)])]
+    if isinstance(obj, VObj) and obj.kind == "pylist" and isinstance(idx, VSlice):
+        # lists[1:] of a list display of concrete length (heterogeneous / non-scalar entries): a new list display
+        def c(x):
+            return None if isinstance(x, VNone) else _conc_index(x.t)
+        return [list_from_values(eng, st, list(st.objs[obj.oid]["items"])[slice(c(idx.lo), c(idx.hi), c(idx.step))])]
     if isinstance(obj, VObj) and obj.cls not in ("list", "dict", "set"):
         return eng.call_method(st, obj, "__getitem__", [idx], {})
     if isinstance(obj, VRef):
@@ -254,6 +259,14 @@ def setitem(eng, st, obj, idx, val):
         return list_setitem(eng, st, obj, idx, val)
     if isinstance(obj, VObj) and obj.kind == "dict":
         return dict_setitem(eng, st, obj, idx, val)
+    if isinstance(obj, VObj) and obj.kind == "pylist" and isinstance(idx, VInt):
+        # lists[0] = x on a list display of concrete length: the entry is replaced (concrete index; IndexError when out of range)
+        items = list(st.objs[obj.oid]["items"])
+        k = _conc_index(idx.t)
+        if not -len(items) <= k < len(items):
+            return [eng.raise_(st, "IndexError")]
+        items[k] = val
+        return [("ok", st.updobj(obj.oid, items=tuple(items)), NONE)]
     raise Unsupported(f"item assignment on {obj!r}")
 
 
@@ -1134,6 +1147,10 @@ def bi_list(eng, st, pos, kw):
     seq = to_seq(eng, st, pos[0])
 
     def mk(s, seq):
+        if seq.known_len is not None and seq.tag in ("tuple", "pylist") and not getattr(seq, "effect", None):
+            # list(<tuple / list display of concrete length>), e.g. list(ids) for a *ids parameter: a new list with the same entries,
+            # built as a list display is (a concrete tuple cannot be indexed symbolically)
+            return [list_from_values(eng, s, [seq.get(s, z3.IntVal(k)) for k in range(seq.known_len)])]
         v0 = seq.get(s, z3.Const(fresh_name("i"), I))
         kind = value_kind(v0)
         if kind is None and isinstance(v0, VTuple) and v0.items and all(value_kind(x) for x in v0.items):
